@@ -60,3 +60,7 @@ A(M("c20r4-r5-replace-skips-null", "C20", TR, "        old = row[i]\n", "       
 A(M("c20r4-r5-item-case-folded", "C20", TR, "    if item not in category_obj.getAttributeList():\n", "    if item.lower() not in [a.lower() for a in category_obj.getAttributeList()]:\n", "early-exit-eval", **B20R5))
 A(M("c20r4-r5-category-case-folded", "C20", TR, "    if category not in data[0].getObjNameList():\n        return None\n    category_obj = data[0].getObj(category)\n", "    names = {n.lower(): n for n in data[0].getObjNameList()}\n    if category.lower() not in names:\n        return None\n    category_obj = data[0].getObj(names[category.lower()])\n", ["early-exit-eval", "edit-eval"], **B20R5))
 A(M("c20r4-r5-str-of-value-silent", "C20", TR, "        old = row[i]\n", "        old = str(row[i])\n", kind="silent", **B20R5))
+# the library hands out the symbols of the alphabet by position (the representatives used to be sorted alphabets only)
+A(M("c20r4-r5-library-sorts-alphabet", "C20", TR, "    mapping = {}\n\n    for row in rows:\n        old = row[i]\n", "    mapping = {}\n    values = \"\".join(sorted(set(values)))\n\n    for row in rows:\n        old = row[i]\n", "edit-eval", **B20R5))
+A(M("c20r4-library-sorts-alphabet", "C20", TR, "    transformed = []\n    mapping = {}\n", "    transformed = []\n    mapping = {}\n    values = sorted(values)\n", "edit-eval"))
+A(M("c20r4-r5-library-lists-alphabet-silent", "C20", TR, "    mapping = {}\n\n    for row in rows:\n        old = row[i]\n", "    mapping = {}\n    values = list(values)\n\n    for row in rows:\n        old = row[i]\n", kind="silent", **B20R5))
